@@ -215,6 +215,20 @@ def errors_consulted(ctx):
 
 
 def r4_whole_ranks(ctx):
+    from . import mroexec
+    from .common import run_fallback
+
+    n0 = len(ctx.obs)
+    try:
+        mroexec.law(ctx, "ranks")
+    except AnalysisError as e:
+        del ctx.obs[n0:]
+        run_fallback(ctx, _r4_whole_ranks_shape, e, "candidate ranking")
+        return
+    _r4_whole_ranks_shape(ctx)
+
+
+def _r4_whole_ranks_shape(ctx):
     from .common import builds
 
     multi = A.multimap(ctx.repo)
